@@ -762,6 +762,10 @@ class HarnessA:
         # (entries must be one slot apart, and each outstanding reservation is an entry about to happen)
         if len(st.items) == 0 and len(st.ready_items) == 0 and self.n_granted("p") == 0:
             return True
+        # an accumulating belt on which nothing is moving any more (every item waits at the exit end) and no entry is outstanding:
+        # no spacing or stall gate applies, it admits until it holds capacity items
+        if self.ad.acc and len(st.items) == 0 and self.n_granted("p") == 0:
+            return True
         return False
 
     def abstract_state(self):
